@@ -90,7 +90,15 @@ def phase_script(draw):
         if k in ("btn", "btn2"):
             info["buttons"].append(7 if k == "btn" else 38)
     if draw(st.booleans()):
-        pro.append("cnt = 0")
+        form = draw(st.sampled_from(["plain", "plain", "ifelse", "for", "try_free_while"]))
+        if form == "plain":
+            pro.append("cnt = 0")
+        elif form == "ifelse":  # first assignment inside a top-level if/else: the declaration is hoisted to a global
+            pro += ["if 1 > 0:", "    cnt = 0", "else:", "    cnt = 0"]
+        elif form == "for":
+            pro += ["for q in range(1):", "    cnt = 0"]
+        else:
+            pro += ["wq = 1", "while wq > 0:", "    wq = wq - 1", "    cnt = 0"]
         info["counter"] = True
     # prologue statements
     avail_pro = [k for k in kinds if where[k] == "pro"] + pro_kinds
